@@ -9,8 +9,12 @@ Next == UNCHANGED i
 Spec == Init /\ [][Next]_i
 R == Rows[i]
 HostNames == DOMAIN R.hosts
+\* what the promoted node had received and never applied when THIS promotion discarded its relay log
+\* (RESET REPLICA ALL) still counts as held by it: promoting it without applying them is precisely
+\* "promotion of a node that is not caught up"
+RelayLost(h) == IF R.kind = "promo" /\ h = R.p THEN ToSet(R.relaylost) ELSE {}
 H == [h \in HostNames |-> [up |-> R.hosts[h].up, ro |-> R.hosts[h].ro,
-                           exec |-> ToSet(R.hosts[h].exec), recv |-> ToSet(R.hosts[h].recv),
+                           exec |-> ToSet(R.hosts[h].exec), recv |-> ToSet(R.hosts[h].recv) \cup RelayLost(h),
                            pend |-> ToSet(R.hosts[h].pend), dur |-> R.hosts[h].dur]]
 IsPromo   == R.kind = "promo"
 IsAttempt == R.kind = "attempt"
